@@ -11,6 +11,7 @@ quic-go, net/http, gin) that parse the bytes first — see `level_note` in props
 -/
 import MtxVerif.Model.C35
 import MtxVerif.Lemmas.C32Moq
+import MtxVerif.Gen.C35
 
 namespace MtxVerif.C35
 
@@ -343,22 +344,273 @@ theorem moq_total (b : Bytes) :
     (C32.readMsg b).r ≠ .panic ∧ (C32.readSubGroup b).r ≠ .panic :=
   ⟨C32.total_readMsg b, C32.total_readSubGroup b⟩
 
+/-! ### connection → access request (SRT, RTMP, RTSP) -/
+
+/-- **SRT conn**: stream id → request mapping -/
+theorem srtConn_total (raw : Bytes) : srtConnRequest raw ≠ .panic := by
+  unfold srtConnRequest
+  simp only [bind_eq]
+  exact bind_ne_panic (srt_total raw) fun _ _ => by simp
+
+/-- **RTMP conn**: no indexing at all (`strings.TrimLeft`) -/
+theorem rtmpConn_total (pub : Bool) (p q u w : Bytes) : rtmpConnRequest pub p q u w ≠ .panic := by
+  simp [rtmpConnRequest]
+
+/-- **RTSP** `onDescribe` / `onAnnounce` / `onSetup`: the guard dominates `ctx.Path[1:]` -/
+theorem rtspStrip_total (path : Bytes) : rtspStrip path ≠ .panic := by
+  unfold rtspStrip
+  split
+  · intro h; cases h
+  · rename_i h
+    simp only [bind_eq]
+    refine bind_ne_panic (idx_ne_panic _ _ (by omega) (by omega)) fun c _ => ?_
+    split
+    · intro h; cases h
+    · exact sliceFrom_ne_panic _ _ ⟨by omega, by omega⟩
+
+/-- **RTSP** `rsession.Path()[1:]` after an accepted ANNOUNCE -/
+theorem rtspStored_total (announced : Bytes) : rtspStoredPathName announced ≠ .panic := by
+  unfold rtspStoredPathName
+  simp only [bind_eq]
+  refine bind_ne_panic (rtspStrip_total announced) fun v hv => ?_
+  have hl : 1 ≤ announced.length := by
+    unfold rtspStrip at hv
+    split at hv
+    · cases hv
+    · omega
+  exact sliceFrom_ne_panic _ _ ⟨by omega, by omega⟩
+
+/-- …and it is the same name `onAnnounce` passed to the path manager -/
+theorem rtspStored_eq (announced name : Bytes) (h : rtspStrip announced = .ok name) :
+    rtspStoredPathName announced = .ok name := by
+  unfold rtspStoredPathName
+  simp only [bind_eq, h, R.bind]
+  unfold rtspStrip at h
+  split at h
+  · cases h
+  · simp only [bind_eq] at h
+    cases hi : idx announced 0 with
+    | ok c =>
+      rw [hi] at h; simp only [R.bind] at h
+      split at h
+      · cases h
+      · exact h
+    | err => rw [hi] at h; cases h
+    | panic => rw [hi] at h; cases h
+
+/-! ### path-name validation and the playback server -/
+
+theorem isValidPathName_total (name : Bytes) (reOk : Bool) : isValidPathName name reOk ≠ .panic := by
+  unfold isValidPathName
+  cases name with
+  | nil => simp
+  | cons c cs =>
+    simp only [List.isEmpty_cons, Bool.false_eq_true, if_false, bind_eq]
+    refine bind_ne_panic (idx_ne_panic _ _ (by omega) (by simp)) fun c0 _ => ?_
+    split
+    · intro h; cases h
+    · refine bind_ne_panic (idx_ne_panic _ _ (by simp) (by simp; omega)) fun cl _ => ?_
+      repeat' split
+      all_goals (intro h; cases h)
+
+/-- **playback /get**: whatever the query parameters and whatever the library parsers answer -/
+theorem playbackGet_total (path : Bytes) (reOk authOk startOk durOk confOk : Bool) (format : Bytes) :
+    playbackGet path reOk authOk startOk durOk confOk format ≠ .panic := by
+  unfold playbackGet
+  simp only [bind_eq]
+  refine bind_ne_panic (isValidPathName_total _ _) fun v _ => ?_
+  repeat' split
+  all_goals (intro h; cases h)
+
+/-- **playback /list** -/
+theorem playbackList_total (path : Bytes) (reOk authOk confOk : Bool) (st en : Bytes) (sOk eOk : Bool) :
+    playbackList path reOk authOk confOk st en sOk eOk ≠ .panic := by
+  unfold playbackList
+  simp only [bind_eq]
+  refine bind_ne_panic (isValidPathName_total _ _) fun v _ => ?_
+  repeat' split
+  all_goals (intro h; cases h)
+
+/-- **Content-Type**: `strings.Split(v, ";")[0]` always exists -/
+theorem parseContentType_total (v : Bytes) : parseContentType v ≠ .panic := by
+  unfold parseContentType
+  simp only [bind_eq]
+  have := splitOn_ne_nil 59 v
+  cases h : splitOn 59 v with
+  | nil => exact absurd h this
+  | cons x t => simp [idx, R.bind]
+
 /-! ### the scoped property -/
 
 /-- the modelled pre-authentication code never panics, whatever the client sends -/
 theorem preauth_owned_code_total :
-    (∀ raw, srtUnmarshal raw ≠ .panic) ∧
+    (∀ raw, srtUnmarshal raw ≠ .panic) ∧ (∀ raw, srtConnRequest raw ≠ .panic) ∧
+    (∀ pub p q u w, rtmpConnRequest pub p q u w ≠ .panic) ∧
+    (∀ p, rtspStrip p ≠ .panic) ∧ (∀ p, rtspStoredPathName p ≠ .panic) ∧
     (∀ auths basic, credentials auths basic ≠ .panic) ∧
     (∀ p, filterPath p ≠ .panic) ∧
     (∀ g p q d b c, hlsServe g p q d b c ≠ .panic) ∧
     (∀ meth p q m1 m2 c, (∀ m, m1 = some m → m.length = 3) → (∀ m, m2 = some m → m.length = 4) →
       rtcRoute meth p q m1 m2 c ≠ .panic) ∧
+    (∀ v, parseContentType v ≠ .panic) ∧
     (∀ name, paramName name ≠ .panic) ∧
     (∀ len a b, paginateR len a b ≠ .panic) ∧
+    (∀ n re, isValidPathName n re ≠ .panic) ∧
+    (∀ p re a s d c f, playbackGet p re a s d c f ≠ .panic) ∧
+    (∀ p re a c s e so eo, playbackList p re a c s e so eo ≠ .panic) ∧
     (∀ b, (C32.readMsg b).r ≠ .panic ∧ (C32.readSubGroup b).r ≠ .panic) :=
-  ⟨srt_total, credentials_total, filterPath_total, hls_total,
-   fun meth p q m1 m2 c h1 h2 => rtc_total meth p q m1 m2 c h1 h2, paramName_total, paginate_total,
+  ⟨srt_total, srtConn_total, rtmpConn_total, rtspStrip_total, rtspStored_total, credentials_total,
+   filterPath_total, hls_total,
+   fun meth p q m1 m2 c h1 h2 => rtc_total meth p q m1 m2 c h1 h2, parseContentType_total,
+   paramName_total, paginate_total, isValidPathName_total, playbackGet_total, playbackList_total,
    moq_total⟩
+
+/-! ### MoQ: what the session indexes after decoding -/
+
+theorem dec_bind_ok_inv {d : C32.Dec α} {f : α → C32.Dec β} {b : Bytes} {v : β} {r : Bytes}
+    (h : (C32.Dec.bind d f b).r = .ok v r) : ∃ w r1, (d b).r = .ok w r1 ∧ (f w r1).r = .ok v r := by
+  rw [C32.bind_r] at h
+  cases hd : (d b).r with
+  | ok w r1 => rw [hd] at h; exact ⟨w, r1, rfl, h⟩
+  | err e => rw [hd] at h; cases h
+  | panic => rw [hd] at h; cases h
+
+/-- `onDataCatalog` reads `sg.Objects[0]`: a successfully read subgroup has exactly one object -/
+theorem moq_subgroup_one_object (b : Bytes) (s : C32.SubGroup) (rest : Bytes)
+    (h : (C32.readSubGroup b).r = .ok s rest) : s.objects.length = 1 := by
+  simp only [C32.readSubGroup, C32.bind_eq, C32.pure_eq] at h
+  obtain ⟨hd, r1, _, h⟩ := dec_bind_ok_inv h
+  obtain ⟨o1, r2, _, h⟩ := dec_bind_ok_inv h
+  obtain ⟨_, r3, _, h⟩ := dec_bind_ok_inv h
+  obtain ⟨o2, r4, _, h⟩ := dec_bind_ok_inv h
+  obtain ⟨_, r5, _, h⟩ := dec_bind_ok_inv h
+  simp at h
+  rw [← h.1]
+  rfl
+
+/-! ### tie to the source: inventory of index / slice expressions and of the authentication boundary
+
+`Gen/C35.lean` is regenerated from /repo at every check.  The two `rfl` theorems state that the
+inventory is EXACTLY the reviewed list below: a new index or slice expression in the inventoried
+pre-authentication code, or a new function calling the path manager / authentication manager, changes
+the generated list and breaks the build until it is reviewed (modelled, or classified). -/
+
+inductive Cover
+  | model (name : String)      -- obligation carried by the named model of Model/C35 (proved total)
+  | map                        -- map / header lookup: cannot panic
+  | fixed                      -- slice of a fixed-size array with constant bounds
+  | guarded (by_ : String)     -- not a client string; guarded in the same function as quoted
+  | postAuth (why : String)    -- only reachable after the authentication boundary
+
+/-- expected inventory, each row with what covers its run-time check -/
+def expectedSites : List ((String × String × String) × Cover) := [
+  (("internal/protocols/httpp/credentials.go", "Credentials", "h.Header[\"Authorization\"]"), .map),
+  (("internal/protocols/httpp/credentials.go", "Credentials", "auth[len(\"Bearer \"):]"), .model "credentials"),
+  (("internal/protocols/httpp/credentials.go", "Credentials", "parts[0]"), .model "credentials"),
+  (("internal/protocols/httpp/credentials.go", "Credentials", "parts[1]"), .model "credentials"),
+  (("internal/protocols/httpp/credentials.go", "Credentials", "auth[len(\"Bearer \"):]"), .model "credentials"),
+  (("internal/protocols/httpp/handler_filter_requests.go", "*handlerFilterRequests.ServeHTTP", "r.URL.Path[0]"), .model "filterPath"),
+  (("internal/protocols/httpp/content_type.go", "ParseContentType", "strings.Split(v, \";\")[0]"), .model "parseContentType"),
+  (("internal/conf/path.go", "IsValidPathName", "name[0]"), .model "isValidPathName"),
+  (("internal/conf/path.go", "IsValidPathName", "name[len(name)-1]"), .model "isValidPathName"),
+  (("internal/servers/srt/streamid.go", "*streamID.unmarshal", "raw[len(\"#!::\"):]"), .model "srtUnmarshal"),
+  (("internal/servers/srt/streamid.go", "*streamID.unmarshal", "kv2[0]"), .model "srtUnmarshal"),
+  (("internal/servers/srt/streamid.go", "*streamID.unmarshal", "kv2[1]"), .model "srtUnmarshal"),
+  (("internal/servers/srt/streamid.go", "*streamID.unmarshal", "parts[len(parts)-1]"), .model "srtUnmarshal"),
+  (("internal/servers/srt/streamid.go", "*streamID.unmarshal", "parts[len(parts)-1]"), .model "srtUnmarshal"),
+  (("internal/servers/srt/streamid.go", "*streamID.unmarshal", "parts[0]"), .model "srtUnmarshal"),
+  (("internal/servers/srt/streamid.go", "*streamID.unmarshal", "parts[1]"), .model "srtUnmarshal"),
+  (("internal/servers/srt/streamid.go", "*streamID.unmarshal", "parts[2]"), .model "srtUnmarshal"),
+  (("internal/servers/srt/streamid.go", "*streamID.unmarshal", "parts[3]"), .model "srtUnmarshal"),
+  (("internal/servers/srt/streamid.go", "*streamID.unmarshal", "parts[2]"), .model "srtUnmarshal"),
+  (("internal/servers/srt/streamid.go", "*streamID.unmarshal", "parts[4]"), .model "srtUnmarshal"),
+  (("internal/servers/rtsp/conn.go", "*conn.onDescribe", "ctx.Path[0]"), .model "rtspStrip"),
+  (("internal/servers/rtsp/conn.go", "*conn.onDescribe", "ctx.Path[1:]"), .model "rtspStrip"),
+  (("internal/servers/rtsp/session.go", "findSingleMPEGTSFormat", "desc.Medias[0]"), .guarded "len(desc.Medias) != 1 || len(Formats) != 1 returns first"),
+  (("internal/servers/rtsp/session.go", "findSingleMPEGTSFormat", "desc.Medias[0].Formats[0]"), .guarded "len(desc.Medias) != 1 || len(Formats) != 1 returns first"),
+  (("internal/servers/rtsp/session.go", "findSingleMPEGTSFormat", "desc.Medias[0]"), .guarded "len(desc.Medias) != 1 || len(Formats) != 1 returns first"),
+  (("internal/servers/rtsp/session.go", "findSingleMPEGTSFormat", "desc.Medias[0]"), .guarded "len(desc.Medias) != 1 || len(Formats) != 1 returns first"),
+  (("internal/servers/rtsp/session.go", "*session.Log", "s.uuid[:4]"), .fixed),
+  (("internal/servers/rtsp/session.go", "*session.onAnnounce", "ctx.Path[0]"), .model "rtspStrip"),
+  (("internal/servers/rtsp/session.go", "*session.onAnnounce", "ctx.Path[1:]"), .model "rtspStrip"),
+  (("internal/servers/rtsp/session.go", "*session.onAnnounce", "ctx.Request.Header[\"User-Agent\"]"), .map),
+  (("internal/servers/rtsp/session.go", "*session.onAnnounce", "ua[0]"), .guarded "len(ua) > 0"),
+  (("internal/servers/rtsp/session.go", "*session.onSetup", "ctx.Path[0]"), .model "rtspStrip"),
+  (("internal/servers/rtsp/session.go", "*session.onSetup", "ctx.Path[1:]"), .model "rtspStrip"),
+  (("internal/servers/rtsp/session.go", "*session.onSetup", "s.transports[gortsplib.ProtocolTCP]"), .map),
+  (("internal/servers/rtsp/session.go", "*session.onSetup", "ctx.Request.Header[\"User-Agent\"]"), .map),
+  (("internal/servers/rtsp/session.go", "*session.onSetup", "ua[0]"), .guarded "len(ua) > 0"),
+  (("internal/servers/rtsp/session.go", "*session.onRecord", "s.rsession.Path()[1:]"), .model "rtspStoredPathName"),
+  (("internal/servers/rtsp/session.go", "*session.onRecord", "s.rsession.Path()[1:]"), .model "rtspStoredPathName"),
+  (("internal/servers/rtsp/session.go", "*session.apiItem", "pa[1:]"), .guarded "len(pa) >= 1"),
+  (("internal/servers/hls/http_server.go", "*httpServer.onRequest", "ctx.Request.URL.Path[1:]"), .model "hlsRoute"),
+  (("internal/servers/hls/http_server.go", "*httpServer.onRequest", "dir[:len(dir)-1]"), .model "hlsRoute"),
+  (("internal/servers/webrtc/http_server.go", "*httpServer.onWHIPOptions", "ctx.Writer.Header()[\"Link\"]"), .map),
+  (("internal/servers/webrtc/http_server.go", "*httpServer.onWHIPPost", "ctx.Writer.Header()[\"Link\"]"), .map),
+  (("internal/servers/webrtc/http_server.go", "*httpServer.onRequest", "m[1]"), .model "rtcRoute"),
+  (("internal/servers/webrtc/http_server.go", "*httpServer.onRequest", "m[2]"), .model "rtcRoute"),
+  (("internal/servers/webrtc/http_server.go", "*httpServer.onRequest", "m[1]"), .model "rtcRoute"),
+  (("internal/servers/webrtc/http_server.go", "*httpServer.onRequest", "m[2]"), .model "rtcRoute"),
+  (("internal/servers/webrtc/http_server.go", "*httpServer.onRequest", "m[3]"), .model "rtcRoute"),
+  (("internal/servers/webrtc/http_server.go", "*httpServer.onRequest", "m[3]"), .model "rtcRoute"),
+  (("internal/servers/webrtc/http_server.go", "*httpServer.onRequest", "ctx.Request.URL.Path[1 : len(ctx.Request.URL.Path)-len(\"/publish\")]"), .model "rtcRoute"),
+  (("internal/servers/webrtc/http_server.go", "*httpServer.onRequest", "ctx.Request.URL.Path[len(ctx.Request.URL.Path)-1]"), .model "rtcRoute"),
+  (("internal/servers/webrtc/http_server.go", "*httpServer.onRequest", "ctx.Request.URL.Path[1 : len(ctx.Request.URL.Path)-1]"), .model "rtcRoute"),
+  (("internal/servers/moq/session.go", "*session.Log", "s.uuid[:4]"), .fixed),
+  (("internal/servers/moq/session.go", "*session.runUniStream", "firstByte[0]"), .guarded "br.Peek(1) returned no error"),
+  (("internal/servers/moq/session.go", "truncateReason", "s[:maxReasonLen]"), .guarded "len(s) > maxReasonLen"),
+  (("internal/servers/moq/session.go", "*session.onSubscribeTrack", "s.setupTracks[trackID]"), .postAuth "0 <= trackID < len(s.setupTracks) checked under the mutex"),
+  (("internal/servers/moq/session.go", "*session.onPublishCatalog", "writeFuncs[trackAlias]"), .map),
+  (("internal/servers/moq/session.go", "*session.onPublishCatalog", "s.inboundTracks[trackAlias]"), .map),
+  (("internal/servers/moq/session.go", "*session.onDataCatalog", "sg.Objects[0]"), .postAuth "SubGroup.Read returns exactly one object (moq_subgroup_one_object)"),
+  (("internal/servers/moq/session.go", "*session.onDataTrack", "s.inboundTracks[sg.Header.TrackAlias]"), .map),
+  (("internal/api/api.go", "paramName", "name[0]"), .model "paramName"),
+  (("internal/api/api.go", "paramName", "name[1:]"), .model "paramName"),
+  (("internal/playback/on_list.go", "*Server.onList", "entries[0]"), .postAuth "after doAuth and FindSegments; entries non-empty checks in place (not modelled)"),
+  (("internal/playback/on_list.go", "*Server.onList", "entries[1:]"), .postAuth "after doAuth and FindSegments; entries non-empty checks in place (not modelled)"),
+  (("internal/playback/on_list.go", "*Server.onList", "entries[0]"), .postAuth "after doAuth and FindSegments; entries non-empty checks in place (not modelled)"),
+  (("internal/playback/on_list.go", "*Server.onList", "entries[0]"), .postAuth "after doAuth and FindSegments; entries non-empty checks in place (not modelled)"),
+  (("internal/playback/on_list.go", "*Server.onList", "entries[len(entries)-1]"), .postAuth "after doAuth and FindSegments; entries non-empty checks in place (not modelled)"),
+  (("internal/playback/on_list.go", "*Server.onList", "entries[len(entries)-1]"), .postAuth "after doAuth and FindSegments; entries non-empty checks in place (not modelled)"),
+  (("internal/playback/on_list.go", "*Server.onList", "entries[i]"), .postAuth "after doAuth and FindSegments; entries non-empty checks in place (not modelled)"),
+  (("internal/playback/on_list.go", "*Server.onList", "entries[i]"), .postAuth "after doAuth and FindSegments; entries non-empty checks in place (not modelled)"),
+  (("internal/playback/on_list.go", "*Server.onList", "entries[i]"), .postAuth "after doAuth and FindSegments; entries non-empty checks in place (not modelled)")
+]
+
+def expectedBoundary : List (String × String × String) := [
+  ("internal/servers/srt/conn.go", "*conn.runPublish", "FindPathConf"),
+  ("internal/servers/srt/conn.go", "*conn.runPublishReader", "AddPublisher"),
+  ("internal/servers/srt/conn.go", "*conn.runRead", "AddReader"),
+  ("internal/servers/rtmp/conn.go", "*conn.runRead", "AddReader"),
+  ("internal/servers/rtmp/conn.go", "*conn.runPublish", "FindPathConf"),
+  ("internal/servers/rtmp/conn.go", "*conn.runPublish", "AddPublisher"),
+  ("internal/servers/rtsp/conn.go", "*conn.onDescribe", "Describe"),
+  ("internal/servers/rtsp/session.go", "*session.onAnnounce", "FindPathConf"),
+  ("internal/servers/rtsp/session.go", "*session.onSetup", "AddReader"),
+  ("internal/servers/rtsp/session.go", "*session.onRecord", "AddPublisher"),
+  ("internal/servers/hls/http_server.go", "*httpServer.onRequest", "FindPathConf"),
+  ("internal/servers/webrtc/http_server.go", "*httpServer.checkAuthOutsideSession", "FindPathConf"),
+  ("internal/servers/webrtc/http_server.go", "*httpServer.onWHIPOptions", "checkAuthOutsideSession"),
+  ("internal/servers/webrtc/http_server.go", "*httpServer.onWHIPPost", "newSession"),
+  ("internal/servers/webrtc/http_server.go", "*httpServer.onPage", "checkAuthOutsideSession"),
+  ("internal/servers/moq/session.go", "*session.onSubscribeCatalog", "AddReader"),
+  ("internal/servers/moq/session.go", "*session.onSubscribeTrack", "AddReader"),
+  ("internal/servers/moq/session.go", "*session.onPublishCatalog", "AddPublisher"),
+  ("internal/playback/server.go", "*Server.safeFindPathConf", "FindPathConf"),
+  ("internal/playback/server.go", "*Server.doAuth", "Authenticate"),
+  ("internal/playback/on_get.go", "*Server.onGet", "doAuth"),
+  ("internal/playback/on_list.go", "*Server.onList", "doAuth")
+]
+
+/-- the index / slice expressions of the inventoried code are exactly the reviewed ones -/
+theorem sites_inventory : Gen.C35.sites = expectedSites.map (·.1) := rfl
+
+/-- the functions that call the authentication boundary are exactly the reviewed ones -/
+theorem boundary_inventory : Gen.C35.boundary = expectedBoundary := rfl
+
+/-- the three RTSP handlers start with the modelled guard + strip; httpp.Server installs the
+empty-path filter around every router -/
+theorem guards_in_place : Gen.C35.rtspGuards = true ∧ Gen.C35.filterBeforeRouter = true := by decide
 
 /-! ### non-vacuity / examples -/
 
